@@ -17,7 +17,14 @@ encoding (`-` = empty string); a list of strings is printed `[h,h,...]`.
   parsed <hexd> <hexrd> <hex>               parse_int_list / int_ranges_from_int_list with delimiters d / rd
   compld <hexd> <hexrd> <hex> <a> <e|N>     complement_int_list(text, a, e, d, rd)
                                (d, rd: one-character strings, else `bad-op`)
+  fmts / parses / compls       as fmtd / parsed / compld with NON-EMPTY STRING delimiters (formatIntListS, parseIntListS,
+                               complementIntListS, intRangesS); an empty delimiter -> `bad-op`
   table                        the generated safe-character ranges, printed back
+  tables2                      the other generated facts (splice, its pieces, quote-forcing class, default delimiters), printed back
+  -- acceptance of the text the IMPLEMENTATION produced (round 3; the correspondence proper):
+  shv  <hextext> <hex>*        shAccepts(text, args)   -> `T<text> S<shSplit text> ok|REJECTED`
+  cmdv <hextext> <hex>*        crtAccepts(text, args)  -> `T<text> D<..> L<..> M<..> ok|REJECTED`
+  esav <0|1> <hexstyle> <hextext> <hex>*   the reader chosen by styleOf(style, win32) applied as above | `ValueError`
 -/
 namespace C14.Driver
 open BV C14
@@ -51,6 +58,12 @@ def char? (h : String) : Option Char :=
     | _ => none
   | none => none
 
+/-- a non-empty string -/
+def str1? (h : String) : Option Str :=
+  match hexToString? h with
+  | some s => if s.toList.isEmpty then none else some s.toList
+  | none => none
+
 def esa (w : Bool) (st : String) (toks : List String) : String :=
   match hexToString? st, args? toks with
   | some st, some args =>
@@ -62,8 +75,34 @@ def esa (w : Bool) (st : String) (toks : List String) : String :=
 def crtAll (t : Str) : String :=
   s!"D{showList (crtSplit .documented t)} L{showList (crtSplit .legacy t)} M{showList (crtSplit .modern t)}"
 
+def verdict (b : Bool) : String := if b then "ok" else "REJECTED"
+
+def shv (t : Str) (args : List Str) : String :=
+  s!"T{hexOf t} S{showOptList (shSplit t)} {verdict (shAccepts t args)}"
+
+def cmdv (t : Str) (args : List Str) : String :=
+  s!"T{hexOf t} {crtAll t} {verdict (crtAccepts t args)}"
+
 def handle (line : String) : String :=
   match words line with
+  | "shv" :: ht :: toks =>
+    match hexToString? ht, args? toks with
+    | some t, some args => shv (toStr t) args
+    | _, _ => "bad-op"
+  | "cmdv" :: ht :: toks =>
+    match hexToString? ht, args? toks with
+    | some t, some args => cmdv (toStr t) args
+    | _, _ => "bad-op"
+  | "esav" :: w :: st :: ht :: toks =>
+    match hexToString? st, hexToString? ht, args? toks with
+    | some st, some t, some args =>
+      if w = "0" ∨ w = "1" then
+        match styleOf (toStr st) (w = "1") with
+        | some .sh => shv (toStr t) args
+        | some .cmd => cmdv (toStr t) args
+        | none => "ValueError"
+      else "bad-op"
+    | _, _, _ => "bad-op"
   | "sh" :: toks =>
     match args? toks with
     | some args => let t := args2sh args; s!"T{hexOf t} S{showOptList (shSplit t)}"
@@ -74,6 +113,26 @@ def handle (line : String) : String :=
     | none => "bad-op"
   | "esa" :: st :: toks => esa false st toks
   | "esaw" :: st :: toks => esa true st toks
+  | ["fmts", sp, hd, hr, l] =>
+    match natList? l, str1? hd, str1? hr with
+    | some l, some d, some rd =>
+      if sp = "0" ∨ sp = "1" then
+        let t := formatIntListS l (sp = "1") d rd
+        s!"T{hexOf t} P{showOptNats (parseIntListS t d rd)} R{showOptRanges (intRangesS t d rd)}"
+      else "bad-op"
+    | _, _, _ => "bad-op"
+  | ["parses", hd, hr, h] =>
+    match str1? hd, str1? hr, hexToString? h with
+    | some d, some rd, some s =>
+      s!"P{showOptNats (parseIntListS (toStr s) d rd)} R{showOptRanges (intRangesS (toStr s) d rd)}"
+    | _, _, _ => "bad-op"
+  | ["compls", hd, hr, h, a, e] =>
+    match str1? hd, str1? hr, hexToString? h, a.toInt?, (if e = "N" then some none else e.toInt?.map some) with
+    | some d, some rd, some s, some a, some e =>
+      match complementIntListS (toStr s) a e d rd with
+      | some t => s!"T{hexOf t}"
+      | none => "ValueError"
+    | _, _, _, _, _ => "bad-op"
   | ["fmtd", sp, hd, hr, l] =>
     match natList? l, char? hd, char? hr with
     | some l, some d, some rd =>
@@ -106,22 +165,25 @@ def handle (line : String) : String :=
     match natList? l with
     | some l =>
       if sp = "0" ∨ sp = "1" then
-        let t := formatIntList l (sp = "1")
-        s!"T{hexOf t} P{showOptNats (parseIntList t)} R{showOptRanges (intRanges t)}"
+        let t := formatIntList l (sp = "1") defaultDelim defaultRangeDelim
+        s!"T{hexOf t} P{showOptNats (parseIntList t defaultDelim defaultRangeDelim)} R{showOptRanges (intRanges t defaultDelim defaultRangeDelim)}"
       else "bad-op"
     | none => "bad-op"
   | ["parse", h] =>
     match hexToString? h with
-    | some s => s!"P{showOptNats (parseIntList (toStr s))} R{showOptRanges (intRanges (toStr s))}"
+    | some s => s!"P{showOptNats (parseIntList (toStr s) defaultDelim defaultRangeDelim)} R{showOptRanges (intRanges (toStr s) defaultDelim defaultRangeDelim)}"
     | none => "bad-op"
   | ["compl", h, a, e] =>
     match hexToString? h, a.toInt?, (if e = "N" then some none else e.toInt?.map some) with
     | some s, some a, some e =>
-      match complementIntList (toStr s) a e with
+      match complementIntList (toStr s) a e defaultDelim defaultRangeDelim with
       | some t => s!"T{hexOf t}"
       | none => "ValueError"
     | _, _, _ => "bad-op"
   | ["table"] => ",".intercalate (Gen.shSafeRanges.map fun p => s!"{p.1}:{p.2}")
+  | ["tables2"] =>
+    let rs := ",".intercalate (Gen.cmdQuoteRanges.map fun p => s!"{p.1}:{p.2}")
+    s!"splice={hexOf sqSplice} pieces={",".intercalate (splicePieces.map fun p => hexOf p.render)} cmdquote={rs} delim={hexOf [defaultDelim]} rdelim={hexOf [defaultRangeDelim]}"
   | _ => "bad-op"
 
 end C14.Driver
